@@ -89,15 +89,16 @@ impl TG<'_> {
             let (a, av) = self.gen(depth - 1);
             return if self.rng.random_bool(0.75) { (format!("-{a}"), av.map(|r| Rat { n: -r.n, d: r.d })) } else { (format!("+{a}"), av) };
         }
-        if self.rng.random_bool(0.15) {
+        if self.rng.random_bool(0.2) {
             // one level without inner parentheses: `1 / x / z`, `a * b / c * d`, `a - b + c - d` (left to right among equal
             // priorities); operands are atoms or parenthesised sub-expressions, a literal 1 often comes first
             let k = self.rng.random_range(2..=4);
             let muldiv = self.rng.random_bool(0.6);
+            let all_div = self.rng.random_bool(0.5);       // `1 / x / z`: reciprocal chains
             let mut text = String::new();
             let mut acc: Option<Rat> = None;
             for j in 0..k {
-                let (a, av) = if j == 0 && self.rng.random_bool(0.3) {
+                let (a, av) = if j == 0 && self.rng.random_bool(0.4) {
                     ("1".to_string(), Some(Rat::int(1)))
                 } else if self.rng.random_bool(0.3) {
                     let (a, av) = self.gen(depth - 1);
@@ -110,7 +111,7 @@ impl TG<'_> {
                     acc = av;
                     continue;
                 }
-                let second = self.rng.random_bool(0.5);
+                let second = self.rng.random_bool(0.5) || (muldiv && all_div);
                 if muldiv {
                     match av {
                         Some(b) if b.n != 0 && second => { text = format!("{text} / {a}"); acc = acc.and_then(|x| rdiv(x, b)).filter(|v| small(*v)); }
